@@ -17,7 +17,7 @@ use jrsonnet_evaluator::{
 	AsPathLike, ImportResolver, ResolvePath,
 };
 use jrsonnet_gcmodule::Acyclic;
-use jrsonnet_ir::{SourceDirectory, SourceFile, SourcePath};
+use jrsonnet_ir::{SourceDirectory, SourceFifo, SourceFile, SourcePath};
 
 use crate::VM;
 
@@ -56,41 +56,49 @@ impl ImportResolver for CallbackImportResolver {
 			ResolvePath::Str(s) => CString::new(s.as_bytes()).unwrap(),
 			ResolvePath::Path(p) => unsafe { crate::unparse_path(p) },
 		};
-		let found_here: *mut c_char = null_mut();
+		let mut found_here: *const c_char = null_mut();
 
 		let mut buf = null_mut();
 		let mut buf_len = 0;
-		let success = unsafe {
+		let status = unsafe {
 			(self.cb)(
 				self.ctx,
 				base.as_ptr(),
 				rel.as_ptr(),
-				&mut found_here.cast_const(),
+				&raw mut found_here,
 				&raw mut buf,
 				&raw mut buf_len,
 			)
 		};
-		let buf_slice: &[u8] = unsafe { std::slice::from_raw_parts(buf.cast(), buf_len) };
-		unsafe {
-			std::alloc::dealloc(
-				buf.cast(),
-				Layout::from_size_align(buf_len, 1).expect("layout is valid"),
-			);
+		// Copy the callback's data out before its buffer goes back to the allocator
+		let buf_intern = if buf.is_null() {
+			Vec::new()
+		} else {
+			let data = unsafe { std::slice::from_raw_parts(buf.cast::<u8>(), buf_len) }.to_vec();
+			unsafe {
+				std::alloc::dealloc(
+					buf.cast(),
+					Layout::from_size_align(buf_len, 1).expect("layout is valid"),
+				);
+			};
+			data
 		};
-		let buf_intern = buf_slice.to_vec();
 
-		assert!(success == 0 || success == 1);
-		if success == 0 {
-			let result = String::from_utf8(buf_intern).expect("error should be valid string");
+		// libjsonnet.h: the callback returns 0 to indicate success and 1 for failure,
+		// on failure the buffer holds the error message
+		assert!(status == 0 || status == 1);
+		if status == 1 {
+			let result = String::from_utf8_lossy(&buf_intern).into_owned();
 			bail!(ImportCallbackError(result));
 		}
 
+		assert!(!found_here.is_null(), "import callback reported success without found_here");
 		let found_here_raw = unsafe { CStr::from_ptr(found_here) };
 		let found_here_buf = SourcePath::new(SourceFile::new(PathBuf::from(
 			found_here_raw.to_str().unwrap(),
 		)));
 		unsafe {
-			let _ = CString::from_raw(found_here);
+			let _ = CString::from_raw(found_here.cast_mut());
 		}
 
 		let mut out = self.out.borrow_mut();
@@ -101,6 +109,10 @@ impl ImportResolver for CallbackImportResolver {
 		Ok(found_here_buf)
 	}
 	fn load_file_contents(&self, resolved: &SourcePath) -> Result<Vec<u8>> {
+		// Inline ext/tla code is an in-memory source, it never went through the callback
+		if let Some(fifo) = resolved.downcast_ref::<SourceFifo>() {
+			return Ok(fifo.1.to_vec());
+		}
 		Ok(self.out.borrow().get(resolved).unwrap().clone())
 	}
 }
